@@ -453,6 +453,13 @@ def gen_instance(rng, idx: int) -> dict:
         b = free_box(rng.choice([1, 2]), rng.choice([1, 1, 2]))
         if b:
             rs.append([(b[0] + b[2]) / 2, (b[1] + b[3]) / 2, b[2] - b[0], b[3] - b[1]])
+            if rng.random() < 0.5:      # L-shaped fixed module: a second rectangle abutting the first (east or north)
+                for b2 in rng.sample([(b[2], b[1], b[2] + 1, b[1] + 1), (b[0], b[3], b[0] + 1, b[3] + 1),
+                                      (b[2], b[3] - 1, b[2] + 1, b[3])], 3):
+                    if b2[2] <= W and b2[3] <= H and all(b2[2] <= u[0] or u[2] <= b2[0] or b2[3] <= u[1] or u[3] <= b2[1] for u in used):
+                        used.append(b2)
+                        rs.append([(b2[0] + b2[2]) / 2, (b2[1] + b2[3]) / 2, 1, 1])
+                        break
         if rs:
             modules[f"F{k}"] = {"fixed": True, "rectangles": rs}
             order.append(f"F{k}")
@@ -519,7 +526,7 @@ def gen_instance(rng, idx: int) -> dict:
     return {"idx": idx, "die": {"width": W, "height": H, "regions": regions}, "modules": modules, "order": order,
             "nets": nets, "refine": refine,
             "thr": rng.choice([0.5, 0.6, 0.7, 0.8, 0.8, 0.9, 0.9, 0.9, 0.9, 0.95, 0.95, 0.95, 0.95, 0.95, 0.99, 0.99, 0.99, 0.99]),
-            "alpha": rng.choice([0.1, 0.3, 0.5, 0.9]), "max_iter": rng.choice([1, 2, 2, 3])}
+            "alpha": rng.choice([0.1, 0.3, 0.5, 0.9]), "max_iter": rng.choice([1, 2, 2, 2, 3, 3, None])}
 
 
 def gen_settled(rng, idx: int) -> dict:
@@ -1080,6 +1087,12 @@ def spec_run(ctx: Ctx, inst: dict, out: dict) -> None:
                 mx = any((p["cx"] - b["rects"][0]["cx"]) * (q["cx"] - a["rects"][0]["cx"]) < 0 for p, q in zip(b["rects"], a["rects"]))
                 my = any((p["cy"] - b["rects"][0]["cy"]) * (q["cy"] - a["rects"][0]["cy"]) < 0 for p, q in zip(b["rects"], a["rects"]))
                 ctx.count("live-hard-multi:" + ("mirrored" if (mx or my) else "translated"))
+                if b["flip"]:
+                    lm = ctx.extra.setdefault("live_flippable_multi_rectangle", {"runs": 0, "mirrored": 0})
+                    lm["runs"] += 1
+                    lm["mirrored"] += int(mx or my)
+        if b["fixed"] and len(b["rects"]) > 1:
+            ctx.count("live-fixed-multi-rectangle")
 
 
 def solver_post(case: dict) -> list[str]:
@@ -1272,6 +1285,11 @@ def run(ctx: Ctx) -> None:
             spec_run(ctx, inst, out)
         check_calls(ctx, inst, out, reqs, todo)
     ctx.extra["glb_runs"] = {"total": n_runs, "by_status": status}
+    lm = ctx.extra.get("live_flippable_multi_rectangle")
+    if not lm or lm["mirrored"] == 0:
+        ctx.notes.append("no live run mirrored a flippable hard module (IPOPT is warm-started in the initial orientation and the "
+                         "squared offset equations keep it there; 141 targeted probes never flipped): the mirror path of "
+                         "extract_solution is exercised by the extract-synth streams only (see input_distribution synth-flip:*)")
     if status.get("returned", 0) == 0:
         ctx.notes.append("no glbfloor run returned: spec-on-implementation of the glb stream is vacuous in this run")
     # ---- synthetic answers, sum
